@@ -4,6 +4,7 @@ import DuneVerif.Model.C07
 -/
 namespace DV.C07.Proofs
 open DV.C07 TMap
+set_option linter.unusedSimpArgs false
 
 /-! ## definitions used in the statements -/
 
@@ -49,68 +50,549 @@ def received {α β} : Item α β → Dest α β → Dest α β
 
 theorem copyCells_length {α} (src : List α) (soff : Nat) (dst : List α) (doff len : Nat) :
     (copyCells src soff dst doff len).length = dst.length := by
-  sorry
+  induction len generalizing soff dst doff with
+  | zero => simp [copyCells]
+  | succ n ih =>
+    unfold copyCells
+    split
+    · rw [ih]; simp
+    · rw [ih]
+
+theorem ovw_none {α} (d : Option α) : ovw none d = d := rfl
 
 theorem copyCells_getElem? {α} (src : List α) (soff : Nat) (dst : List α) (doff len i : Nat) :
     (copyCells src soff dst doff len)[i]? =
       if doff ≤ i ∧ i < doff + len then ovw src[soff + (i - doff)]? dst[i]? else dst[i]? := by
-  sorry
+  induction len generalizing soff dst doff with
+  | zero => simp [copyCells]; omega
+  | succ n ih =>
+    unfold copyCells
+    split
+    next x hx =>
+      rw [ih]
+      by_cases h1 : doff + 1 ≤ i ∧ i < doff + 1 + n
+      · have h2 : doff ≤ i ∧ i < doff + (n + 1) := by omega
+        have h3 : soff + 1 + (i - (doff + 1)) = soff + (i - doff) := by omega
+        have h4 : doff ≠ i := by omega
+        simp [h1, h2, h3, List.getElem?_set, h4]
+      · by_cases h5 : i = doff
+        · subst h5
+          have h6 : i ≤ i ∧ i < i + (n + 1) := by omega
+          simp [h1, h6, hx, List.getElem?_set, ovw]
+          by_cases h7 : i < dst.length <;> simp [h7]
+        · have h2 : ¬ (doff ≤ i ∧ i < doff + (n + 1)) := by omega
+          have h4 : doff ≠ i := by omega
+          simp [h1, h2, List.getElem?_set, h4]
+    next hx =>
+      rw [ih]
+      by_cases h1 : doff + 1 ≤ i ∧ i < doff + 1 + n
+      · have h2 : doff ≤ i ∧ i < doff + (n + 1) := by omega
+        have h3 : soff + 1 + (i - (doff + 1)) = soff + (i - doff) := by omega
+        simp [h1, h2, h3]
+      · by_cases h5 : i = doff
+        · subst h5
+          have h6 : i ≤ i ∧ i < i + (n + 1) := by omega
+          simp [h1, h6, hx, ovw]
+        · have h2 : ¬ (doff ≤ i ∧ i < doff + (n + 1)) := by omega
+          simp [h1, h2]
+/-- blocks version of `covers` -/
+def coversL (bs : List (Nat × Nat)) (j : Nat) : Bool := bs.any (fun b => decide (b.1 ≤ j) && decide (j < b.1 + b.2))
+
+theorem ovw_ovw {α} (s d : Option α) : ovw s (ovw s d) = ovw s d := by
+  cases s <;> cases d <;> simp [ovw]
+
+def transferL {α} (bs : List (Nat × Nat)) (src : List α) (soff : Nat) (dst : List α) (doff : Nat) : List α :=
+  bs.foldl (fun acc b => copyCells src (soff + b.1) acc (doff + b.1) b.2) dst
+
+theorem transferL_length {α} (bs : List (Nat × Nat)) (src : List α) (soff : Nat) (dst : List α) (doff : Nat) :
+    (transferL bs src soff dst doff).length = dst.length := by
+  induction bs generalizing dst with
+  | nil => rfl
+  | cons b bs ih => simp only [transferL, List.foldl_cons] at ih ⊢; rw [ih, copyCells_length]
+
+theorem transferL_getElem? {α} (bs : List (Nat × Nat)) (src : List α) (soff : Nat) (dst : List α) (doff i : Nat) :
+    (transferL bs src soff dst doff)[i]? =
+      if doff ≤ i ∧ coversL bs (i - doff) = true then ovw src[soff + (i - doff)]? dst[i]? else dst[i]? := by
+  induction bs generalizing dst with
+  | nil => simp [transferL, coversL]
+  | cons b bs ih =>
+    simp only [transferL, List.foldl_cons] at ih ⊢
+    rw [ih, copyCells_getElem?]
+    simp only [coversL, List.any_cons, Bool.or_eq_true, Bool.and_eq_true, decide_eq_true_eq]
+    by_cases hcb : (bs.any fun b => decide (b.1 ≤ i - doff) && decide (i - doff < b.1 + b.2)) = true
+    all_goals by_cases hd : doff ≤ i
+    all_goals by_cases hb : doff + b.1 ≤ i ∧ i < doff + b.1 + b.2
+    all_goals first
+      | (exfalso; omega)
+      | (have hb' : (b.1 ≤ i - doff ∧ i - doff < b.1 + b.2) := by omega
+         have h3 : soff + b.1 + (i - (doff + b.1)) = soff + (i - doff) := by omega
+         simp only [hcb, hd, hb, hb', h3, ovw_ovw, and_self, true_and, or_true, true_or, if_true, or_false, if_false, false_and, and_false, Bool.false_eq_true])
+      | (have hb' : ¬ (b.1 ≤ i - doff ∧ i - doff < b.1 + b.2) := by omega
+         simp only [hcb, hd, hb, hb', ovw_ovw, and_self, true_and, or_true, true_or, if_true, or_false, false_or, if_false, false_and, and_false, Bool.false_eq_true])
+      | (simp only [hd, hb, false_and, if_false])
 
 theorem transfer_length {α} (tm : TMap) (src : List α) (soff : Nat) (dst : List α) (doff : Nat) :
-    (transfer tm src soff dst doff).length = dst.length := by
-  sorry
+    (transfer tm src soff dst doff).length = dst.length :=
+  transferL_length tm.blocks src soff dst doff
 
 theorem transfer_getElem? {α} (tm : TMap) (src : List α) (soff : Nat) (dst : List α) (doff i : Nat) :
     (transfer tm src soff dst doff)[i]? =
-      if doff ≤ i ∧ tm.covers (i - doff) = true then ovw src[soff + (i - doff)]? dst[i]? else dst[i]? := by
-  sorry
+      if doff ≤ i ∧ tm.covers (i - doff) = true then ovw src[soff + (i - doff)]? dst[i]? else dst[i]? :=
+  transferL_getElem? tm.blocks src soff dst doff i
+
+theorem transferN_succ {α} (tm : TMap) (n : Nat) (src : List α) (soff : Nat) (dst : List α) (doff : Nat) :
+    transferN tm (n + 1) src soff dst doff =
+      transfer tm src (soff + n * tm.extent) (transferN tm n src soff dst doff) (doff + n * tm.extent) := by
+  simp [transferN, List.range_succ, List.foldl_append]
+
+theorem transferN_zero {α} (tm : TMap) (src : List α) (soff : Nat) (dst : List α) (doff : Nat) :
+    transferN tm 0 src soff dst doff = dst := by simp [transferN]
 
 theorem transferN_length {α} (tm : TMap) (n : Nat) (src : List α) (soff : Nat) (dst : List α) (doff : Nat) :
     (transferN tm n src soff dst doff).length = dst.length := by
-  sorry
+  induction n with
+  | zero => simp [transferN_zero]
+  | succ n ih => rw [transferN_succ, transfer_length, ih]
+
+theorem covers_lt (tm : TMap) (hwf : tm.wf) (j : Nat) (h : tm.covers j = true) : j < tm.extent := by
+  simp only [covers, List.any_eq_true, Bool.and_eq_true, decide_eq_true_eq] at h
+  obtain ⟨b, hb, h1, h2⟩ := h
+  have := hwf b hb
+  omega
 
 theorem transferN_getElem? {α} (tm : TMap) (hwf : tm.wf) (hpos : 0 < tm.extent) (n : Nat)
     (src : List α) (soff : Nat) (dst : List α) (doff i : Nat) :
     (transferN tm n src soff dst doff)[i]? =
       if doff ≤ i ∧ (i - doff) / tm.extent < n ∧ tm.covers ((i - doff) % tm.extent) = true
       then ovw src[soff + (i - doff)]? dst[i]? else dst[i]? := by
-  sorry
+  induction n with
+  | zero => simp [transferN_zero]
+  | succ n ih =>
+    rw [transferN_succ, transfer_getElem?, ih]
+    have hdm := Nat.div_add_mod (i - doff) tm.extent
+    have hml := Nat.mod_lt (i - doff) hpos
+    generalize hq : (i - doff) / tm.extent = q at *
+    generalize hr : (i - doff) % tm.extent = r at *
+    by_cases hA : doff + n * tm.extent ≤ i ∧ tm.covers (i - (doff + n * tm.extent)) = true
+    · have hj := covers_lt tm hwf _ hA.2
+      have hqn : q = n := by
+        have h1 : i - doff = tm.extent * n + (i - (doff + n * tm.extent)) := by
+          rw [Nat.mul_comm]; omega
+        have h2 : (i - doff) / tm.extent = n := by
+          rw [h1, Nat.mul_add_div hpos, Nat.div_eq_of_lt hj, Nat.add_zero]
+        omega
+      have hrj : r = i - (doff + n * tm.extent) := by
+        subst hqn
+        have : tm.extent * q = q * tm.extent := Nat.mul_comm _ _
+        omega
+      have hidx : soff + n * tm.extent + (i - (doff + n * tm.extent)) = soff + (i - doff) := by omega
+      have hd : doff ≤ i := by omega
+      rw [if_pos hA, hidx]
+      have hc : tm.covers r = true := by rw [hrj]; exact hA.2
+      have h1 : ¬ (doff ≤ i ∧ q < n ∧ tm.covers r = true) := by omega
+      have h2 : (doff ≤ i ∧ q < n + 1 ∧ tm.covers r = true) := ⟨hd, by omega, hc⟩
+      rw [if_neg h1, if_pos h2]
+    · rw [if_neg hA]
+      have : (doff ≤ i ∧ q < n + 1 ∧ tm.covers r = true) ↔ (doff ≤ i ∧ q < n ∧ tm.covers r = true) := by
+        constructor
+        · rintro ⟨hd, hq', hc⟩
+          refine ⟨hd, ?_, hc⟩
+          by_cases hqn : q = n
+          · exfalso
+            apply hA
+            subst hqn
+            have : tm.extent * q = q * tm.extent := Nat.mul_comm _ _
+            have h3 : i - (doff + q * tm.extent) = r := by omega
+            exact ⟨by omega, by rw [h3]; exact hc⟩
+          · omega
+        · rintro ⟨hd, hq', hc⟩
+          exact ⟨hd, by omega, hc⟩
+      by_cases h : (doff ≤ i ∧ q < n ∧ tm.covers r = true)
+      · rw [if_pos h, if_pos (this.mpr h)]
+      · rw [if_neg h, if_neg (fun h' => h (this.mp h'))]
+/-- source congruence -/
+theorem copyCells_src_congr {α} (src1 src2 : List α) (s1 s2 : Nat) (dst : List α) (d len : Nat)
+    (h : ∀ j, j < len → src1[s1 + j]? = src2[s2 + j]?) :
+    copyCells src1 s1 dst d len = copyCells src2 s2 dst d len := by
+  induction len generalizing s1 s2 dst d with
+  | zero => rfl
+  | succ n ih =>
+    have h0 := h 0 (by omega)
+    simp only [Nat.add_zero] at h0
+    have hrest : ∀ j, j < n → src1[s1 + 1 + j]? = src2[s2 + 1 + j]? := by
+      intro j hj
+      have := h (j + 1) (by omega)
+      rw [show s1 + 1 + j = s1 + (j + 1) by omega, show s2 + 1 + j = s2 + (j + 1) by omega]
+      exact this
+    unfold copyCells
+    rw [h0]
+    split
+    · exact ih _ _ _ _ hrest
+    · exact ih _ _ _ _ hrest
+
+theorem transfer_src_congr {α} (tm : TMap) (hwf : tm.wf) (src1 src2 : List α) (s1 s2 : Nat) (dst : List α) (d : Nat)
+    (h : ∀ j, j < tm.extent → src1[s1 + j]? = src2[s2 + j]?) :
+    transfer tm src1 s1 dst d = transfer tm src2 s2 dst d := by
+  unfold transfer
+  have hwf' : ∀ b ∈ tm.blocks, b.1 + b.2 ≤ tm.extent := hwf
+  generalize tm.blocks = bs at hwf' ⊢
+  induction bs generalizing dst with
+  | nil => rfl
+  | cons b bs ih =>
+    simp only [List.foldl_cons]
+    have hb := hwf' b (by simp)
+    rw [copyCells_src_congr src1 src2 (s1 + b.1) (s2 + b.1) dst (d + b.1) b.2
+      (by intro j hj; rw [Nat.add_assoc, Nat.add_assoc]; exact h _ (by omega))]
+    exact ih _ (fun b' hb' => hwf' b' (by simp [hb']))
+
+theorem transferN_src_congr {α} (tm : TMap) (hwf : tm.wf) (n : Nat) (src1 src2 : List α) (s1 s2 : Nat) (dst : List α)
+    (d : Nat) (h : ∀ j, j < n * tm.extent → src1[s1 + j]? = src2[s2 + j]?) :
+    transferN tm n src1 s1 dst d = transferN tm n src2 s2 dst d := by
+  induction n with
+  | zero => simp [transferN_zero]
+  | succ n ih =>
+    rw [transferN_succ, transferN_succ, ih (fun j hj => h j (by rw [Nat.add_mul]; omega))]
+    apply transfer_src_congr tm hwf
+    intro j hj
+    rw [Nat.add_assoc, Nat.add_assoc]
+    exact h _ (by rw [Nat.add_mul]; omega)
+
+theorem transferN_add {α} (tm : TMap) (a b : Nat) (src : List α) (s : Nat) (dst : List α) (d : Nat) :
+    transferN tm (a + b) src s dst d =
+      transferN tm b src (s + a * tm.extent) (transferN tm a src s dst d) (d + a * tm.extent) := by
+  induction b with
+  | zero => simp [transferN_zero]
+  | succ b ih =>
+    rw [← Nat.add_assoc, transferN_succ, transferN_succ, ih, Nat.add_mul]
+    simp only [Nat.add_assoc]
+
+theorem copyCells_succ_some {α} (src : List α) (s : Nat) (dst : List α) (d n : Nat) (x : α) (h : src[s]? = some x) :
+    copyCells src s dst d (n + 1) = copyCells src (s + 1) (dst.set d x) (d + 1) n := by
+  rw [copyCells]; simp [h]
+theorem copyCells_succ_none {α} (src : List α) (s : Nat) (dst : List α) (d n : Nat) (h : src[s]? = none) :
+    copyCells src s dst d (n + 1) = copyCells src (s + 1) dst (d + 1) n := by
+  rw [copyCells]; simp [h]
+
+theorem copyCells_add {α} (src : List α) (s : Nat) (dst : List α) (d a b : Nat) :
+    copyCells src s dst d (a + b) = copyCells src (s + a) (copyCells src s dst d a) (d + a) b := by
+  induction a generalizing s dst d with
+  | zero => simp [copyCells]
+  | succ a ih =>
+    rw [show a + 1 + b = (a + b) + 1 by omega]
+    cases h : src[s]? with
+    | some x =>
+      rw [copyCells_succ_some _ _ _ _ _ _ h, copyCells_succ_some _ _ _ _ _ _ h, ih]
+      simp only [Nat.add_assoc, Nat.add_comm 1 a]
+    | none =>
+      rw [copyCells_succ_none _ _ _ _ _ h, copyCells_succ_none _ _ _ _ _ h, ih]
+      simp only [Nat.add_assoc, Nat.add_comm 1 a]
+
+theorem transfer_full {α} (e : Nat) (src : List α) (s : Nat) (dst : List α) (d : Nat) :
+    transfer (full e) src s dst d = copyCells src s dst d e := by
+  simp [transfer, full]
+
+theorem transferN_full {α} (e n : Nat) (src : List α) (s : Nat) (dst : List α) (d : Nat) :
+    transferN (full e) n src s dst d = copyCells src s dst d (n * e) := by
+  induction n with
+  | zero => simp [transferN_zero, copyCells]
+  | succ n ih =>
+    rw [transferN_succ, ih, transfer_full, Nat.add_mul, Nat.one_mul, copyCells_add]
+    rfl
+
+theorem copyCells_all {α} (src dst : List α) (len : Nat) (hs : src.length = len) (hd : dst.length = len) :
+    copyCells src 0 dst 0 len = src := by
+  apply List.ext_getElem?
+  intro i
+  rw [copyCells_getElem?]
+  by_cases h : i < len
+  · have h1 : src[i]? = some src[i] := List.getElem?_eq_getElem (by omega)
+    have h2 : dst[i]? = some dst[i] := List.getElem?_eq_getElem (by omega)
+    simp [h, h1, h2, ovw]
+  · have h1 : src[i]? = none := List.getElem?_eq_none (by omega)
+    have h2 : dst[i]? = none := List.getElem?_eq_none (by omega)
+    simp [h, h1, h2]
+
+theorem encCells_length {α β} (C : Codec α β) (xs : List α) : (encCells C xs).length = xs.length * C.w := by
+  induction xs with
+  | nil => simp [encCells]
+  | cons x xs ih =>
+    simp only [encCells, List.flatMap_cons, List.length_append, C.enc_len, List.length_cons] at ih ⊢
+    rw [ih, Nat.add_mul]; omega
+
+theorem decCells_encCells {α β} (C : Codec α β) (xs : List α) (rest : List β) :
+    decCells C xs.length (encCells C xs ++ rest) = xs := by
+  induction xs with
+  | nil => simp [decCells]
+  | cons x xs ih =>
+    simp only [encCells, List.flatMap_cons, List.length_cons, decCells, List.append_assoc] at ih ⊢
+    rw [List.take_left' (C.enc_len x), List.drop_left' (C.enc_len x), C.dec_enc, ih]
+
+def blockCells {α} (src : List α) (soff : Nat) (b : Nat × Nat) : List α := (src.drop (soff + b.1)).take b.2
+
+theorem blockCells_length {α} (src : List α) (soff : Nat) (b : Nat × Nat) (h : soff + b.1 + b.2 ≤ src.length) :
+    (blockCells src soff b).length = b.2 := by
+  simp [blockCells]; omega
+
+theorem packElem_length {α} (tm : TMap) (src : List α) (soff : Nat)
+    (hsrc : ∀ b ∈ tm.blocks, soff + b.1 + b.2 ≤ src.length) : (packElem tm src soff).length = tm.size := by
+  unfold packElem TMap.size
+  generalize tm.blocks = bs at hsrc
+  induction bs with
+  | nil => simp
+  | cons b bs ih =>
+    simp only [List.flatMap_cons, List.length_append, List.map_cons, List.sum_cons]
+    rw [ih (fun b' hb' => hsrc b' (by simp [hb']))]
+    have := blockCells_length src soff b (hsrc b (by simp))
+    simp only [blockCells] at this
+    rw [this]
+
+/-- unpacking a stream that continues with the packed blocks `bs` reproduces the block-wise transfer -/
+theorem unpack_blocks_gen {α} (bs : List (Nat × Nat)) (src : List α) (soff : Nat) (doff : Nat) (stream : List α)
+    (hsrc : ∀ b ∈ bs, soff + b.1 + b.2 ≤ src.length) (dst : List α) (c : Nat) (suf : List α)
+    (hs : stream.drop c = bs.flatMap (blockCells src soff) ++ suf) :
+    bs.foldl (fun (acc : List α × Nat) b => (copyCells stream acc.2 acc.1 (doff + b.1) b.2, acc.2 + b.2)) (dst, c)
+      = (transferL bs src soff dst doff, c + (bs.map (·.2)).sum) := by
+  induction bs generalizing dst c with
+  | nil => simp [transferL]
+  | cons b bs ih =>
+    have hb := hsrc b (by simp)
+    have hbl := blockCells_length src soff b hb
+    simp only [List.foldl_cons, List.flatMap_cons, List.append_assoc] at hs ⊢
+    have hcopy : copyCells stream c dst (doff + b.1) b.2 = copyCells src (soff + b.1) dst (doff + b.1) b.2 := by
+      apply copyCells_src_congr
+      intro j hj
+      have h1 : stream[c + j]? = (stream.drop c)[j]? := by rw [List.getElem?_drop]
+      rw [h1, hs, List.getElem?_append_left (by omega)]
+      simp only [blockCells, List.getElem?_take, List.getElem?_drop, hj, if_true]
+    rw [hcopy]
+    have hs' : stream.drop (c + b.2) = bs.flatMap (blockCells src soff) ++ suf := by
+      rw [← List.drop_drop, hs, List.drop_left' hbl]
+    rw [ih (fun b' hb' => hsrc b' (by simp [hb'])) _ _ hs']
+    simp only [transferL, List.foldl_cons, List.map_cons, List.sum_cons, Nat.add_assoc]
+
+theorem unpackElem_stream {α} (tm : TMap) (src : List α) (soff : Nat) (dst : List α) (doff : Nat) (suf : List α)
+    (hsrc : ∀ b ∈ tm.blocks, soff + b.1 + b.2 ≤ src.length) :
+    unpackElem tm (packElem tm src soff ++ suf) dst doff = transfer tm src soff dst doff := by
+  unfold unpackElem
+  rw [unpack_blocks_gen tm.blocks src soff doff (packElem tm src soff ++ suf) hsrc dst 0 suf (by simp only [List.drop_zero]; rfl)]
+  rfl
 
 theorem unpack_pack_elem {α} (tm : TMap) (src : List α) (soff : Nat) (dst : List α) (doff : Nat)
     (hsrc : ∀ b ∈ tm.blocks, soff + b.1 + b.2 ≤ src.length) :
     unpackElem tm (packElem tm src soff) dst doff = transfer tm src soff dst doff := by
-  sorry
+  have := unpackElem_stream tm src soff dst doff [] hsrc
+  simpa using this
+
+theorem packN_succ {α} (tm : TMap) (n : Nat) (src : List α) :
+    packN tm (n + 1) src = packN tm n src ++ packElem tm src (n * tm.extent) := by
+  simp [packN, List.range_succ, List.flatMap_append]
+
+theorem elem_in_range (tm : TMap) (hwf : tm.wf) (n k : Nat) (hk : k < n) (len : Nat) (hlen : len = n * tm.extent) :
+    ∀ b ∈ tm.blocks, k * tm.extent + b.1 + b.2 ≤ len := by
+  intro b hb
+  have h1 := hwf b hb
+  have h2 : (k + 1) * tm.extent ≤ n * tm.extent := Nat.mul_le_mul_right _ hk
+  rw [Nat.add_mul, Nat.one_mul] at h2
+  omega
+
+theorem packN_length {α} (tm : TMap) (hwf : tm.wf) (n m : Nat) (hnm : n ≤ m) (src : List α)
+    (hlen : src.length = m * tm.extent) : (packN tm n src).length = n * tm.size := by
+  induction n with
+  | zero => simp [packN]
+  | succ n ih =>
+    rw [packN_succ, List.length_append, ih (by omega),
+      packElem_length tm src _ (elem_in_range tm hwf m n (by omega) _ hlen), Nat.add_mul, Nat.one_mul]
+
+theorem packN_prefix {α} (tm : TMap) (n k : Nat) (src : List α) :
+    ∃ suf, packN tm (n + k) src = packN tm n src ++ suf := by
+  induction k with
+  | zero => exact ⟨[], by simp⟩
+  | succ k ih =>
+    obtain ⟨suf, h⟩ := ih
+    exact ⟨suf ++ packElem tm src ((n + k) * tm.extent), by rw [← Nat.add_assoc, packN_succ, h, List.append_assoc]⟩
+
+/-- `unpackN ∘ packN` is the strided transfer (the stream may continue after the `n` packed elements) -/
+theorem unpackN_packN {α} (tm : TMap) (hwf : tm.wf) (n m : Nat) (hnm : n ≤ m) (src : List α)
+    (hlen : src.length = m * tm.extent) (dst : List α) :
+    unpackN tm n (packN tm m src) dst = transferN tm n src 0 dst 0 := by
+  induction n with
+  | zero => simp [unpackN, transferN_zero]
+  | succ n ih =>
+    rw [transferN_succ, ← ih (by omega)]
+    simp only [unpackN, List.range_succ, List.foldl_append, List.foldl_cons, List.foldl_nil, Nat.zero_add]
+    obtain ⟨suf, hsuf⟩ := packN_prefix tm (n + 1) (m - (n + 1)) src
+    rw [show n + 1 + (m - (n + 1)) = m by omega, packN_succ, List.append_assoc] at hsuf
+    have hl := packN_length tm hwf n m (by omega) src hlen
+    have hdrop : (packN tm m src).drop (n * tm.size) = packElem tm src (n * tm.extent) ++ suf := by
+      rw [hsuf, List.drop_left' hl]
+    rw [hdrop]
+    exact unpackElem_stream tm src _ _ _ suf (elem_in_range tm hwf m n (by omega) _ hlen)
+
+theorem fv_blocks (d n w : Nat) :
+    (Types.fieldVector d n (basic w)).blocks = (List.range n).map (fun k => (d + k * w, w)) := by
+  simp only [Types.fieldVector, struct, contiguous, basic, List.flatMap_cons, List.flatMap_nil, List.append_nil,
+    List.range_one, List.map_cons, List.map_nil, Nat.zero_mul]
+  generalize List.range n = ks
+  induction ks with
+  | nil => rfl
+  | cons k ks ih =>
+    simp only [List.flatMap_cons, List.map_append, List.map_cons, List.map_nil, List.cons_append, List.nil_append] at ih ⊢
+    rw [ih]
+    simp [shift]
 
 theorem fieldVector_covers (d n w j : Nat) :
     (Types.fieldVector d n (basic w)).covers j = true ↔ d ≤ j ∧ j < d + n * w := by
-  sorry
+  simp only [covers, fv_blocks, List.any_map, List.any_eq_true, List.mem_range, Function.comp, Bool.and_eq_true,
+    decide_eq_true_eq]
+  constructor
+  · rintro ⟨k, hk, h1, h2⟩
+    have : (k + 1) * w ≤ n * w := Nat.mul_le_mul_right _ hk
+    rw [Nat.add_mul, Nat.one_mul] at this
+    omega
+  · rintro ⟨h1, h2⟩
+    have hw : 0 < w := by
+      rcases Nat.eq_zero_or_pos w with h | h
+      · subst h; omega
+      · exact h
+    refine ⟨(j - d) / w, (Nat.div_lt_iff_lt_mul hw).mpr (by omega), ?_, ?_⟩
+    · have := Nat.div_mul_le_self (j - d) w; omega
+    · have := Nat.div_add_mod (j - d) w
+      have := Nat.mod_lt (j - d) hw
+      have : w * ((j - d) / w) = (j - d) / w * w := Nat.mul_comm _ _
+      omega
 
 /-! ## gatherv / scatterv -/
+
+theorem flatten_length_parts {α} (e : Nat) (parts : List (List α × Nat)) (hl : ∀ p ∈ parts, p.1.length = p.2 * e) :
+    (parts.map (·.1)).flatten.length = (parts.map (·.2)).sum * e := by
+  induction parts with
+  | nil => simp
+  | cons p ps ih =>
+    simp only [List.map_cons, List.flatten_cons, List.length_append, List.sum_cons, Nat.add_mul]
+    rw [ih (fun q hq => hl q (by simp [hq])), hl p (by simp)]
+
+theorem gathervAt_prefix_gen {α} (tm : TMap) (hwf : tm.wf) (parts : List (List α × Nat))
+    (hl : ∀ p ∈ parts, p.1.length = p.2 * tm.extent) (s : Nat) (out : List α) :
+    Spec.gathervAt tm (parts.map (·.1)) (parts.map (·.2)) (prefixSumsFrom s (parts.map (·.2))) out
+      = transferN tm (parts.map (·.2)).sum (parts.map (·.1)).flatten 0 out (s * tm.extent) := by
+  induction parts generalizing s out with
+  | nil => simp [Spec.gathervAt, prefixSumsFrom, transferN_zero]
+  | cons p ps ih =>
+    have hp := hl p (by simp)
+    have ih' := ih (fun q hq => hl q (by simp [hq])) (s + p.2) (transferN tm p.2 p.1 0 out (s * tm.extent))
+    simp only [Spec.gathervAt, List.map_cons, prefixSumsFrom, List.zip_cons_cons, List.foldl_cons] at ih' ⊢
+    rw [ih']
+    simp only [List.flatten_cons, List.sum_cons]
+    rw [transferN_add, Nat.add_mul]
+    have h1 : transferN tm p.2 (p.1 ++ (ps.map (·.1)).flatten) 0 out (s * tm.extent)
+        = transferN tm p.2 p.1 0 out (s * tm.extent) := by
+      apply transferN_src_congr tm hwf
+      intro j hj
+      simp only [Nat.zero_add]
+      exact List.getElem?_append_left (by omega)
+    rw [h1]
+    apply transferN_src_congr tm hwf
+    intro j hj
+    simp only [Nat.zero_add]
+    rw [List.getElem?_append_right (by omega)]
+    congr 1
+    omega
 
 theorem gathervAt_prefix {α} (tm : TMap) (hwf : tm.wf) (parts : List (List α × Nat))
     (hl : ∀ p ∈ parts, p.1.length = p.2 * tm.extent) (out : List α) :
     Spec.gathervAt tm (parts.map (·.1)) (parts.map (·.2)) (prefixSums (parts.map (·.2))) out
       = transferN tm (parts.map (·.2)).sum (parts.map (·.1)).flatten 0 out 0 := by
-  sorry
+  have := gathervAt_prefix_gen tm hwf parts hl 0 out
+  simpa [prefixSums] using this
+
+theorem full_wf (e : Nat) : (full e).wf := by
+  intro b hb
+  simp [full] at hb
+  subst hb
+  simp [full]
 
 theorem gathervAt_prefix_full {α} (e : Nat) (parts : List (List α × Nat))
     (hl : ∀ p ∈ parts, p.1.length = p.2 * e) (out : List α)
     (hout : out.length = (parts.map (·.2)).sum * e) :
     Spec.gathervAt (full e) (parts.map (·.1)) (parts.map (·.2)) (prefixSums (parts.map (·.2))) out
       = (parts.map (·.1)).flatten := by
-  sorry
+  rw [gathervAt_prefix (full e) (full_wf e) parts hl out, transferN_full]
+  exact copyCells_all _ _ _ (flatten_length_parts e parts hl) hout
+
+theorem gatherAt_concat_gen {α} (tm : TMap) (hwf : tm.wf) (n : Nat) (ins : List (List α))
+    (hl : ∀ inp ∈ ins, inp.length = n * tm.extent) (k : Nat) (out : List α) :
+    (ins.zipIdx k).foldl (fun acc p => transferN tm n p.1 0 acc (p.2 * n * tm.extent)) out
+      = transferN tm (ins.length * n) ins.flatten 0 out (k * n * tm.extent) := by
+  induction ins generalizing k out with
+  | nil => simp [transferN_zero]
+  | cons x xs ih =>
+    have hx := hl x (by simp)
+    simp only [List.zipIdx_cons, List.foldl_cons, List.length_cons, List.flatten_cons]
+    rw [ih (fun q hq => hl q (by simp [hq])), show (xs.length + 1) * n = n + xs.length * n by rw [Nat.add_mul]; omega,
+      transferN_add]
+    have h1 : transferN tm n (x ++ xs.flatten) 0 out (k * n * tm.extent) = transferN tm n x 0 out (k * n * tm.extent) := by
+      apply transferN_src_congr tm hwf
+      intro j hj
+      simp only [Nat.zero_add]
+      exact List.getElem?_append_left (by omega)
+    rw [h1, show (k + 1) * n * tm.extent = k * n * tm.extent + n * tm.extent by rw [Nat.add_mul, Nat.add_mul, Nat.one_mul]]
+    apply transferN_src_congr tm hwf
+    intro j hj
+    simp only [Nat.zero_add]
+    rw [List.getElem?_append_right (by omega)]
+    congr 1
+    omega
 
 theorem gatherAt_concat {α} (tm : TMap) (hwf : tm.wf) (n : Nat) (ins : List (List α))
     (hl : ∀ inp ∈ ins, inp.length = n * tm.extent) (out : List α) :
     Spec.gatherAt tm n ins out = transferN tm (ins.length * n) ins.flatten 0 out 0 := by
-  sorry
+  have := gatherAt_concat_gen tm hwf n ins hl 0 out
+  simpa [Spec.gatherAt] using this
+
+theorem prefixSumsFrom_getD (s : Nat) (ls : List Nat) (r : Nat) (hr : r < ls.length) :
+    (prefixSumsFrom s ls).getD r 0 = s + (ls.take r).sum := by
+  induction ls generalizing s r with
+  | nil => simp at hr
+  | cons l ls ih =>
+    cases r with
+    | zero => simp [prefixSumsFrom]
+    | succ r =>
+      simp only [prefixSumsFrom, List.getD_cons_succ, List.take_succ_cons, List.sum_cons]
+      rw [ih (s + l) r (by simpa using hr)]
+      omega
+
+theorem flatten_getElem?_part {α} (e : Nat) (parts : List (List α × Nat)) (hl : ∀ p ∈ parts, p.1.length = p.2 * e)
+    (r : Nat) (hr : r < parts.length) (j : Nat) (hj : j < parts[r].2 * e) :
+    (parts.map (·.1)).flatten[((parts.map (·.2)).take r).sum * e + j]? = (parts[r].1)[j]? := by
+  induction parts generalizing r with
+  | nil => simp at hr
+  | cons p ps ih =>
+    have hp := hl p (by simp)
+    cases r with
+    | zero =>
+      simp only [List.map_cons, List.flatten_cons, List.take_zero, List.sum_nil, Nat.zero_mul, Nat.zero_add,
+        List.getElem_cons_zero] at hj ⊢
+      exact List.getElem?_append_left (by omega)
+    | succ r =>
+      simp only [List.map_cons, List.flatten_cons, List.take_succ_cons, List.sum_cons, List.getElem_cons_succ] at hj ⊢
+      rw [List.getElem?_append_right (by rw [hp, Nat.add_mul]; omega)]
+      have := ih (fun q hq => hl q (by simp [hq])) r (by simpa using hr) hj
+      rw [← this]
+      congr 1
+      rw [hp, Nat.add_mul]
+      omega
 
 theorem scattervAt_flatten {α} (tm : TMap) (hwf : tm.wf) (parts : List (List α × Nat))
     (hl : ∀ p ∈ parts, p.1.length = p.2 * tm.extent) (r : Nat) (hr : r < parts.length)
     (rcv : List α) :
     Spec.scattervAt tm (parts.map (·.1)).flatten (parts[r].2) ((prefixSums (parts.map (·.2))).getD r 0) rcv
       = transferN tm (parts[r].2) (parts[r].1) 0 rcv 0 := by
-  sorry
+  unfold Spec.scattervAt prefixSums
+  rw [prefixSumsFrom_getD 0 _ r (by simpa using hr)]
+  apply transferN_src_congr tm hwf
+  intro j hj
+  simp only [Nat.zero_add]
+  exact flatten_getElem?_part tm.extent parts hl r hr j hj
 
 theorem scatterv_gatherv_full {α} (e : Nat) (parts : List (List α × Nat))
     (hl : ∀ p ∈ parts, p.1.length = p.2 * e) (out : List α) (hout : out.length = (parts.map (·.2)).sum * e)
@@ -118,85 +600,376 @@ theorem scatterv_gatherv_full {α} (e : Nat) (parts : List (List α × Nat))
     Spec.scattervAt (full e)
       (Spec.gathervAt (full e) (parts.map (·.1)) (parts.map (·.2)) (prefixSums (parts.map (·.2))) out)
       (parts[r].2) ((prefixSums (parts.map (·.2))).getD r 0) rcv = parts[r].1 := by
-  sorry
+  rw [gathervAt_prefix_full e parts hl out hout]
+  have hl' : ∀ p ∈ parts, p.1.length = p.2 * (full e).extent := hl
+  rw [scattervAt_flatten (full e) (full_wf e) parts hl' r hr rcv, transferN_full]
+  exact copyCells_all _ _ _ (hl _ (List.getElem_mem hr)) hrcv
 
 /-! ## reductions -/
+
+theorem op_foldl {β} (op : β → β → β) (hassoc : ∀ a b c, op (op a b) c = op a (op b c)) (a b : β) (xs : List β) :
+    op a (xs.foldl op b) = xs.foldl op (op a b) := by
+  induction xs generalizing b with
+  | nil => rfl
+  | cons x xs ih => simp only [List.foldl_cons]; rw [ih, hassoc]
+
+theorem leaves_ne_nil {β} (t : Tree β) : t.leaves ≠ [] := by
+  induction t with
+  | leaf x => simp [Tree.leaves]
+  | node l r ihl ihr => simp [Tree.leaves, ihl]
+
+theorem tree_eval_leaves {β} (op : β → β → β) (hassoc : ∀ a b c, op (op a b) c = op a (op b c)) (t : Tree β) :
+    some (t.eval op) = Spec.foldRanks op t.leaves := by
+  induction t with
+  | leaf x => simp [Tree.eval, Tree.leaves, Spec.foldRanks]
+  | node l r ihl ihr =>
+    simp only [Tree.eval, Tree.leaves]
+    cases hl : l.leaves with
+    | nil => exact absurd hl (leaves_ne_nil l)
+    | cons a as =>
+      cases hr : r.leaves with
+      | nil => exact absurd hr (leaves_ne_nil r)
+      | cons b bs =>
+        rw [hl] at ihl; rw [hr] at ihr
+        simp only [Spec.foldRanks, Option.some.injEq] at ihl ihr
+        simp only [List.cons_append, Spec.foldRanks, List.foldl_append, List.foldl_cons, Option.some.injEq]
+        rw [ihl, ihr, op_foldl op hassoc]
+
+theorem foldRanks_perm {β} (op : β → β → β) (hassoc : ∀ a b c, op (op a b) c = op a (op b c))
+    (hcomm : ∀ a b, op a b = op b a) (xs ys : List β) (hp : xs.Perm ys) :
+    Spec.foldRanks op xs = Spec.foldRanks op ys := by
+  have rc : ∀ a b c, op (op a b) c = op (op a c) b := by
+    intro a b c; rw [hassoc, hcomm b c, ← hassoc]
+  induction hp with
+  | nil => rfl
+  | cons x _ ih =>
+    rename_i l1 l2 hp'
+    simp only [Spec.foldRanks, Option.some.injEq]
+    exact List.Perm.foldl_eq' hp' (fun a _ b _ c => rc c a b) x
+  | swap x y l =>
+    simp only [Spec.foldRanks, List.foldl_cons, Option.some.injEq]
+    rw [hcomm]
+  | trans _ _ ih1 ih2 => rw [ih1, ih2]
 
 theorem tree_eval_eq_foldRanks {β : Type} (op : β → β → β) (hassoc : ∀ a b c, op (op a b) c = op a (op b c))
     (hcomm : ∀ a b, op a b = op b a) (t : Tree β) (xs : List β) (hp : t.leaves.Perm xs) :
     some (t.eval op) = Spec.foldRanks op xs := by
-  sorry
+  rw [tree_eval_leaves op hassoc t]
+  exact foldRanks_perm op hassoc hcomm _ _ hp
 
 /-! ## sequential stand-in -/
 
+theorem copyLoop_eq {α} (e : Nat) (src : List α) (io : Nat) (dst : List α) (oo len : Nat) :
+    Seq.copyLoop e src io dst oo len = transferN (full e) len src (io * e) dst (oo * e) := by
+  induction len with
+  | zero => simp [Seq.copyLoop, transferN_zero]
+  | succ n ih =>
+    rw [transferN_succ, ← ih, transfer_full]
+    simp only [Seq.copyLoop, List.range_succ, List.foldl_append, List.foldl_cons, List.foldl_nil, Seq.assignElem,
+      Nat.add_mul, full]
+
+theorem assignElem_eq {α} (e : Nat) (src dst : List α) :
+    Seq.assignElem e src 0 dst 0 = transferN (full e) 1 src 0 dst 0 := by
+  rw [transferN_full]; simp [Seq.assignElem]
+
+theorem seq_gather {α} (e : Nat) (inp out : List α) (len root : Nat) :
+    Spec.gather (full e) len 0 [inp] [out] = [Seq.gather e inp out len root] := by
+  simp [Spec.gather, Spec.gatherAt, Seq.gather, copyLoop_eq, List.zipIdx, List.mapIdx_cons, List.mapIdx_nil]
+
+theorem seq_igather {α} (e : Nat) (dataIn dataOut : List α) (root : Nat) :
+    Spec.gather (full e) 1 0 [dataIn] [dataOut] = [Seq.igather e dataIn dataOut root] := by
+  simp [Spec.gather, Spec.gatherAt, Seq.igather, assignElem_eq, List.zipIdx, List.mapIdx_cons, List.mapIdx_nil]
+
+theorem seq_gatherv {α} (e : Nat) (inp : List α) (sendLen : Nat) (out : List α) (displ root : Nat) :
+    Spec.gatherv (full e) 0 [inp] [sendLen] [displ] [out] = [Seq.gatherv e inp sendLen out sendLen displ root] := by
+  simp [Spec.gatherv, Spec.gathervAt, Seq.gatherv, copyLoop_eq, List.mapIdx_cons, List.mapIdx_nil, full]
+
+theorem seq_scatter {α} (e : Nat) (send recv : List α) (len root : Nat) :
+    Spec.scatter (full e) len 0 [send] [recv] = [Seq.scatter e send recv len root] := by
+  simp [Spec.scatter, Spec.scatterAt, Seq.scatter, copyLoop_eq, List.mapIdx_cons, List.mapIdx_nil]
+
+theorem seq_iscatter {α} (e : Nat) (dataIn dataOut : List α) (root : Nat) :
+    Spec.scatter (full e) 1 0 [dataIn] [dataOut] = [Seq.iscatter e dataIn dataOut root] := by
+  simp [Spec.scatter, Spec.scatterAt, Seq.iscatter, assignElem_eq, List.mapIdx_cons, List.mapIdx_nil]
+
+theorem seq_scatterv {α} (e : Nat) (send : List α) (sendLen displ : Nat) (recv : List α) (root : Nat) :
+    Spec.scatterv (full e) 0 [send] [sendLen] [displ] [recv] = [Seq.scatterv e send sendLen displ recv sendLen root] := by
+  simp [Spec.scatterv, Spec.scattervAt, Seq.scatterv, copyLoop_eq, List.mapIdx_cons, List.mapIdx_nil, full]
+
+theorem seq_allgather {α} (e : Nat) (sbuf : List α) (count : Nat) (rbuf : List α) :
+    Spec.allgather (full e) count [sbuf] [rbuf] = [Seq.allgather e sbuf count rbuf] := by
+  simp [Spec.allgather, Spec.gatherAt, Seq.allgather, copyLoop_eq, List.zipIdx]
+
+theorem seq_iallgather {α} (e : Nat) (dataIn dataOut : List α) :
+    Spec.allgather (full e) 1 [dataIn] [dataOut] = [Seq.iallgather e dataIn dataOut] := by
+  simp [Spec.allgather, Spec.gatherAt, Seq.iallgather, assignElem_eq, List.zipIdx]
+
+theorem seq_allgatherv {α} (e : Nat) (inp : List α) (sendLen : Nat) (out : List α) (displ : Nat) :
+    Spec.allgatherv (full e) [inp] [sendLen] [displ] [out] = [Seq.allgatherv e inp sendLen out sendLen displ] := by
+  simp [Spec.allgatherv, Spec.gathervAt, Seq.allgatherv, copyLoop_eq, full]
+
+/-- the elements of one rank's buffer, concatenated, are its prefix -/
+theorem elems_flat {α} (e n : Nat) (x : List α) (h : n * e ≤ x.length) :
+    (List.range n).flatMap (fun j => Spec.elem e j x) = x.take (n * e) := by
+  induction n with
+  | zero => simp
+  | succ n ih =>
+    have h' : n * e ≤ x.length := by rw [Nat.add_mul] at h; omega
+    rw [List.range_succ, List.flatMap_append, ih h']
+    simp only [List.flatMap_cons, List.flatMap_nil, List.append_nil, Spec.elem]
+    rw [Nat.add_mul, Nat.one_mul, List.take_add]
+
+theorem allreduceVal_one {α} (e n : Nat) (op : List α → List α → List α) (x : List α) (h : n * e ≤ x.length) :
+    Spec.allreduceVal e n op [x] = x.take (n * e) := by
+  rw [← elems_flat e n x h]
+  simp [Spec.allreduceVal, Spec.foldRanks]
+
+theorem copyCells_take {α} (x dst : List α) (s d len k : Nat) (hk : s + len ≤ k) :
+    copyCells (x.take k) s dst d len = copyCells x s dst d len := by
+  apply copyCells_src_congr
+  intro j hj
+  rw [List.getElem?_take]
+  simp [show s + j < k by omega]
+
 theorem seq_reduceScalar {α} (e : Nat) (op : List α → List α → List α) (x : List α) (hx : x.length = e) :
     Spec.allreduceVal e 1 op [x] = Seq.reduceScalar x := by
-  sorry
-
-theorem seq_reduceInplace {α} (e len : Nat) (op : List α → List α → List α) (inout : List α)
-    (h : len * e ≤ inout.length) :
-    Spec.allreduce e len op [inout] [inout] = [Seq.reduceInplace inout len] := by
-  sorry
+  rw [allreduceVal_one e 1 op x (by omega)]
+  rw [Nat.one_mul, List.take_of_length_le (by omega)]
+  rfl
 
 theorem seq_allreduceInOut {α} (e len : Nat) (op : List α → List α → List α) (inp out : List α)
     (h : len * e ≤ inp.length) :
     Spec.allreduce e len op [inp] [out] = [Seq.allreduceInOut e inp out len] := by
-  sorry
+  simp only [Spec.allreduce, List.map_cons, List.map_nil, Seq.allreduceInOut, copyLoop_eq, Nat.zero_mul]
+  rw [allreduceVal_one e len op inp h, transferN_full, transferN_full, copyCells_take _ _ _ _ _ _ (by omega)]
+
+theorem copyCells_self {α} (x : List α) (len : Nat) : copyCells x 0 x 0 len = x := by
+  apply List.ext_getElem?
+  intro i
+  rw [copyCells_getElem?]
+  split
+  · simp only [Nat.zero_add, Nat.sub_zero]
+    cases x[i]? <;> rfl
+  · rfl
+
+theorem seq_reduceInplace {α} (e len : Nat) (op : List α → List α → List α) (inout : List α)
+    (h : len * e ≤ inout.length) :
+    Spec.allreduce e len op [inout] [inout] = [Seq.reduceInplace inout len] := by
+  simp only [Spec.allreduce, List.map_cons, List.map_nil, Seq.reduceInplace]
+  rw [allreduceVal_one e len op inout h, transferN_full, copyCells_take _ _ _ _ _ _ (by omega), copyCells_self]
 
 theorem seq_iallreduceInOut {α} (e n : Nat) (op : List α → List α → List α) (dataIn dataOut : List α)
     (hi : dataIn.length = n * e) (ho : dataOut.length = n * e) :
     Spec.allreduce e n op [dataIn] [dataOut] = [Seq.iallreduceInOut dataIn dataOut] := by
-  sorry
+  simp only [Spec.allreduce, List.map_cons, List.map_nil, Seq.iallreduceInOut]
+  rw [allreduceVal_one e n op dataIn (by omega), transferN_full, copyCells_take _ _ _ _ _ _ (by omega),
+    copyCells_all _ _ _ hi ho]
 
 theorem seq_iallreduceInplace {α} (e n : Nat) (op : List α → List α → List α) (data : List α)
     (h : data.length = n * e) :
-    Spec.allreduce e n op [data] [data] = [Seq.iallreduceInplace data] := by
-  sorry
-
-theorem seq_gather {α} (e : Nat) (inp out : List α) (len root : Nat) :
-    Spec.gather (full e) len 0 [inp] [out] = [Seq.gather e inp out len root] := by
-  sorry
-
-theorem seq_igather {α} (e : Nat) (dataIn dataOut : List α) (root : Nat) :
-    Spec.gather (full e) 1 0 [dataIn] [dataOut] = [Seq.igather e dataIn dataOut root] := by
-  sorry
-
-theorem seq_gatherv {α} (e : Nat) (inp : List α) (sendLen : Nat) (out : List α) (displ root : Nat) :
-    Spec.gatherv (full e) 0 [inp] [sendLen] [displ] [out] = [Seq.gatherv e inp sendLen out sendLen displ root] := by
-  sorry
-
-theorem seq_scatter {α} (e : Nat) (send recv : List α) (len root : Nat) :
-    Spec.scatter (full e) len 0 [send] [recv] = [Seq.scatter e send recv len root] := by
-  sorry
-
-theorem seq_iscatter {α} (e : Nat) (dataIn dataOut : List α) (root : Nat) :
-    Spec.scatter (full e) 1 0 [dataIn] [dataOut] = [Seq.iscatter e dataIn dataOut root] := by
-  sorry
-
-theorem seq_scatterv {α} (e : Nat) (send : List α) (sendLen displ : Nat) (recv : List α) (root : Nat) :
-    Spec.scatterv (full e) 0 [send] [sendLen] [displ] [recv] = [Seq.scatterv e send sendLen displ recv sendLen root] := by
-  sorry
-
-theorem seq_allgather {α} (e : Nat) (sbuf : List α) (count : Nat) (rbuf : List α) :
-    Spec.allgather (full e) count [sbuf] [rbuf] = [Seq.allgather e sbuf count rbuf] := by
-  sorry
-
-theorem seq_iallgather {α} (e : Nat) (dataIn dataOut : List α) :
-    Spec.allgather (full e) 1 [dataIn] [dataOut] = [Seq.iallgather e dataIn dataOut] := by
-  sorry
-
-theorem seq_allgatherv {α} (e : Nat) (inp : List α) (sendLen : Nat) (out : List α) (displ : Nat) :
-    Spec.allgatherv (full e) [inp] [sendLen] [displ] [out] = [Seq.allgatherv e inp sendLen out sendLen displ] := by
-  sorry
+    Spec.allreduce e n op [data] [data] = [Seq.iallreduceInplace data] :=
+  seq_iallreduceInOut e n op data data h h
 
 /-! ## MPIPack -/
+
+theorem copyCells_take_write {α} (bs buf : List α) (pos : Nat) (h : pos + bs.length ≤ buf.length) :
+    (copyCells bs 0 buf pos bs.length).take (pos + bs.length) = buf.take pos ++ bs := by
+  apply List.ext_getElem?
+  intro i
+  rw [List.getElem?_take, copyCells_getElem?, List.getElem?_append]
+  simp only [List.length_take, Nat.zero_add]
+  have hm : min pos buf.length = pos := by omega
+  rw [hm]
+  by_cases h1 : i < pos
+  · have h2 : ¬ (pos ≤ i ∧ i < pos + bs.length) := by omega
+    have h3 : i < pos + bs.length := by omega
+    have h2' : ¬ pos ≤ i := by omega
+    simp [h1, h2', h3, List.getElem?_take]
+  · by_cases h3 : i < pos + bs.length
+    · have h2 : (pos ≤ i ∧ i < pos + bs.length) := by omega
+      have h4 : buf[i]? = some buf[i] := List.getElem?_eq_getElem (by omega)
+      have h5 : bs[i - pos]? = some bs[i - pos] := List.getElem?_eq_getElem (by omega)
+      simp [h1, h2, h3, h4, h5, ovw]
+    · have h5 : bs[i - pos]? = none := List.getElem?_eq_none (by omega)
+      simp [h1, h3, h5]
+
+theorem writeBytes_spec {β} (st : PState β) (bs : List β) (h : st.pos + bs.length ≤ st.buf.length) :
+    (writeBytes st bs).buf.length = st.buf.length ∧ (writeBytes st bs).pos = st.pos + bs.length ∧
+      (writeBytes st bs).buf.take (st.pos + bs.length) = st.buf.take st.pos ++ bs := by
+  refine ⟨?_, rfl, ?_⟩
+  · simp [writeBytes, copyCells_length]
+  · exact copyCells_take_write bs st.buf st.pos h
+
+theorem wire_length {α β} (C : Codec α β) (ofNat : Nat → α) (it : DV.C07.Item α β) :
+    (it.wire C ofNat).length = (if it.isDynamic then C.w else 0) + (it.payload C).length := by
+  unfold Item.wire
+  split <;> simp [C.enc_len]
+
+/-- the growth step of `MPIPack::pack` -/
+def grow {β} (zero : β) (st : PState β) (size : Nat) : List β :=
+  if st.pos + size > st.buf.length then st.buf ++ List.replicate (st.pos + size - st.buf.length) zero else st.buf
+
+theorem grow_length {β} (zero : β) (st : PState β) (size : Nat) : st.pos + size ≤ (grow zero st size).length := by
+  unfold grow
+  split
+  · simp; omega
+  · omega
+
+theorem grow_take {β} (zero : β) (st : PState β) (size : Nat) (hpos : st.pos ≤ st.buf.length) :
+    (grow zero st size).take st.pos = st.buf.take st.pos := by
+  unfold grow
+  split
+  · exact List.take_append_of_le_length hpos
+  · rfl
+
+theorem packItem_static {α β} (C : Codec α β) (ofNat : Nat → α) (bound : Nat → Nat) (zero : β) (st : PState β)
+    (it : DV.C07.Item α β) (h : it.isDynamic = false) :
+    packItem C ofNat bound zero st it
+      = writeBytes ⟨grow zero st (bound (it.payload C).length + 0), st.pos⟩ (it.payload C) := by
+  simp only [packItem, h, Bool.false_eq_true, if_false, grow]
+
+theorem packItem_dynamic {α β} (C : Codec α β) (ofNat : Nat → α) (bound : Nat → Nat) (zero : β) (st : PState β)
+    (it : DV.C07.Item α β) (h : it.isDynamic = true) :
+    packItem C ofNat bound zero st it
+      = writeBytes (writeBytes ⟨grow zero st (bound (it.payload C).length + bound C.w), st.pos⟩
+          (C.enc (ofNat it.count))) (it.payload C) := by
+  simp only [packItem, h, if_true, grow]
 
 theorem packItem_spec {α β} (C : Codec α β) (ofNat : Nat → α) (bound : Nat → Nat) (hb : ∀ k, k ≤ bound k)
     (zero : β) (st : PState β) (hpos : st.pos ≤ st.buf.length) (it : DV.C07.Item α β) :
     let st' := packItem C ofNat bound zero st it
     st'.pos ≤ st'.buf.length ∧ st'.pos = st.pos + (it.wire C ofNat).length ∧
       st'.buf.take st'.pos = st.buf.take st.pos ++ it.wire C ofNat := by
-  sorry
+  intro st'
+  have hp1 := hb (it.payload C).length
+  have hp2 := hb C.w
+  cases hdyn : it.isDynamic with
+  | false =>
+    have hst' : st' = _ := packItem_static C ofNat bound zero st it hdyn
+    have hw : it.wire C ofNat = it.payload C := by simp [Item.wire, hdyn]
+    have hl := grow_length zero st (bound (it.payload C).length + 0)
+    obtain ⟨h1, h2, h3⟩ := writeBytes_spec ⟨grow zero st (bound (it.payload C).length + 0), st.pos⟩ (it.payload C)
+      (by simp only; omega)
+    rw [hst', hw]
+    simp only at h1 h2 h3
+    refine ⟨by rw [h1, h2]; omega, h2, ?_⟩
+    rw [h2, h3, grow_take zero st _ hpos]
+  | true =>
+    have hst' : st' = _ := packItem_dynamic C ofNat bound zero st it hdyn
+    have hw : it.wire C ofNat = C.enc (ofNat it.count) ++ it.payload C := by simp [Item.wire, hdyn]
+    have hel := C.enc_len (ofNat it.count)
+    have hl := grow_length zero st (bound (it.payload C).length + bound C.w)
+    obtain ⟨h1, h2, h3⟩ := writeBytes_spec ⟨grow zero st (bound (it.payload C).length + bound C.w), st.pos⟩
+      (C.enc (ofNat it.count)) (by simp only; omega)
+    simp only at h1 h2 h3
+    obtain ⟨g1, g2, g3⟩ := writeBytes_spec (writeBytes ⟨grow zero st (bound (it.payload C).length + bound C.w), st.pos⟩
+      (C.enc (ofNat it.count))) (it.payload C) (by rw [h1, h2]; omega)
+    rw [hst', hw]
+    refine ⟨by rw [g1, g2, h1, h2]; omega, by rw [g2, h2, List.length_append]; omega, ?_⟩
+    rw [g2, g3, h2, h3, grow_take zero st _ hpos, List.append_assoc]
+
+theorem take_wire {β} (xs rest : List β) (k : Nat) (h : xs.length = k) : (xs ++ rest).take k = xs :=
+  List.take_left' h
+
+theorem resizeBytes_length {β} (zero : β) (bytes : List β) (n : Nat) : (resizeBytes zero bytes n).length = n := by
+  unfold resizeBytes
+  split
+  · simp; omega
+  · simp; omega
+
+/-- reading one item back from a stream that starts with its wire format -/
+theorem unpackItem_wire {α β} (C : Codec α β) (ofNat : Nat → α) (toNat : α → Nat) (hnat : ∀ n, toNat (ofNat n) = n)
+    (zero : β) (buf : List β) (pos : Nat) (it : DV.C07.Item α β) (d : Dest α β) (rest : List β)
+    (hwf : Item.wf it) (hc : compatible it d) (hs : buf.drop pos = it.wire C ofNat ++ rest) :
+    unpackItem C toNat zero ⟨buf, pos⟩ d = (received it d, ⟨buf, pos + (it.wire C ofNat).length⟩) := by
+  cases it with
+  | stat tm n cells =>
+    cases d with
+    | stat tm' n' dcells =>
+      obtain ⟨rfl, rfl⟩ := hc
+      obtain ⟨hwf1, hlen⟩ := hwf
+      have hpl := packN_length tm hwf1 n n (Nat.le_refl _) cells hlen
+      have hel := encCells_length C (packN tm n cells)
+      simp only [Item.wire, Item.isDynamic, Bool.false_eq_true, if_false, List.nil_append, Item.payload] at hs ⊢
+      simp only [unpackItem, received, hs]
+      rw [take_wire _ _ _ (by rw [hel, hpl])]
+      have hd := decCells_encCells C (packN tm n cells) []
+      rw [List.append_nil, hpl] at hd
+      rw [hd, unpackN_packN tm hwf1 n n (Nat.le_refl _) cells hlen, hel, hpl]
+    | dyn _ _ _ => exact absurd hc (by simp [compatible])
+    | raw _ => exact absurd hc (by simp [compatible])
+  | dyn tm n cells =>
+    cases d with
+    | stat _ _ _ => exact absurd hc (by simp [compatible])
+    | dyn tm' dflt dcells =>
+      have htm : tm = tm' := hc
+      subst htm
+      obtain ⟨hwf1, hlen⟩ := hwf
+      have hpl := packN_length tm hwf1 n n (Nat.le_refl _) cells hlen
+      have hel := encCells_length C (packN tm n cells)
+      have henc := C.enc_len (ofNat n)
+      simp only [Item.wire, Item.isDynamic, if_true, Item.payload, Item.count, List.append_assoc] at hs ⊢
+      have hs2 : buf.drop (pos + C.w) = encCells C (packN tm n cells) ++ rest := by
+        rw [← List.drop_drop, hs, List.drop_left' henc]
+      simp only [unpackItem, received, hs]
+      rw [take_wire _ _ _ henc, C.dec_enc, hnat, hs2, take_wire _ _ _ (by rw [hel, hpl])]
+      have hd := decCells_encCells C (packN tm n cells) []
+      rw [List.append_nil, hpl] at hd
+      rw [hd, unpackN_packN tm hwf1 n n (Nat.le_refl _) cells hlen, List.length_append, henc, hel, hpl, Nat.add_assoc]
+    | raw _ => exact absurd hc (by simp [compatible])
+  | raw bytes =>
+    cases d with
+    | stat _ _ _ => exact absurd hc (by simp [compatible])
+    | dyn _ _ _ => exact absurd hc (by simp [compatible])
+    | raw old =>
+      have henc := C.enc_len (ofNat bytes.length)
+      simp only [Item.wire, Item.isDynamic, if_true, Item.payload, Item.count, List.append_assoc] at hs ⊢
+      have hs2 : buf.drop (pos + C.w) = bytes ++ rest := by
+        rw [← List.drop_drop, hs, List.drop_left' henc]
+      simp only [unpackItem, received, hs]
+      rw [take_wire _ _ _ henc, C.dec_enc, hnat, hs2, take_wire _ _ _ rfl,
+        copyCells_all _ _ _ rfl (resizeBytes_length zero old bytes.length), List.length_append, henc, Nat.add_assoc]
+
+def wires {α β} (C : Codec α β) (ofNat : Nat → α) (its : List (DV.C07.Item α β)) : List β :=
+  its.flatMap (fun it => it.wire C ofNat)
+
+theorem unpackAll_wires {α β} (C : Codec α β) (ofNat : Nat → α) (toNat : α → Nat) (hnat : ∀ n, toNat (ofNat n) = n)
+    (zero : β) (buf : List β) (pairs : List (DV.C07.Item α β × Dest α β))
+    (hwf : ∀ p ∈ pairs, Item.wf p.1 ∧ compatible p.1 p.2) (pos : Nat) (rest : List β)
+    (hs : buf.drop pos = wires C ofNat (pairs.map (·.1)) ++ rest) :
+    unpackAll C toNat zero ⟨buf, pos⟩ (pairs.map (·.2))
+      = (pairs.map (fun p => received p.1 p.2), ⟨buf, pos + (wires C ofNat (pairs.map (·.1))).length⟩) := by
+  induction pairs generalizing pos with
+  | nil => simp [unpackAll, wires]
+  | cons p ps ih =>
+    obtain ⟨hw, hc⟩ := hwf p (by simp)
+    simp only [List.map_cons, wires, List.flatMap_cons, List.append_assoc] at hs ⊢
+    have h1 := unpackItem_wire C ofNat toNat hnat zero buf pos p.1 p.2 _ hw hc hs
+    have hs' : buf.drop (pos + (p.1.wire C ofNat).length) = wires C ofNat (ps.map (·.1)) ++ rest := by
+      rw [← List.drop_drop, hs, List.drop_left' rfl]; rfl
+    have h2 := ih (fun q hq => hwf q (by simp [hq])) _ hs'
+    simp only [unpackAll, h1, h2, List.length_append, Nat.add_assoc]
+    rfl
+
+theorem packAll_spec {α β} (C : Codec α β) (ofNat : Nat → α) (bound : Nat → Nat) (hb : ∀ k, k ≤ bound k) (zero : β)
+    (its : List (DV.C07.Item α β)) (st : PState β) (hpos : st.pos ≤ st.buf.length) :
+    let st' := packAll C ofNat bound zero st its
+    st'.pos ≤ st'.buf.length ∧ st'.pos = st.pos + (wires C ofNat its).length ∧
+      st'.buf.take st'.pos = st.buf.take st.pos ++ wires C ofNat its := by
+  induction its generalizing st with
+  | nil => simp [packAll, wires, hpos]
+  | cons it its ih =>
+    obtain ⟨h1, h2, h3⟩ := packItem_spec C ofNat bound hb zero st hpos it
+    obtain ⟨g1, g2, g3⟩ := ih (packItem C ofNat bound zero st it) h1
+    simp only [packAll, List.foldl_cons, wires, List.flatMap_cons, List.length_append] at g1 g2 g3 ⊢
+    refine ⟨g1, by rw [g2, h2]; omega, ?_⟩
+    rw [g3, h3, List.append_assoc]
+
+theorem drop_of_take_eq {β} {l A W : List β} {p q : Nat} (h : l.take q = A ++ W) (hA : A.length = p) :
+    l.drop p = W ++ l.drop q := by
+  calc l.drop p = (l.take q ++ l.drop q).drop p := by rw [List.take_append_drop]
+    _ = (A ++ (W ++ l.drop q)).drop p := by rw [h, List.append_assoc]
+    _ = W ++ l.drop q := List.drop_left' hA
 
 theorem roundtrip {α β} (C : Codec α β) (ofNat : Nat → α) (toNat : α → Nat)
     (hnat : ∀ n, toNat (ofNat n) = n) (bound : Nat → Nat) (hb : ∀ k, k ≤ bound k) (zero : β)
@@ -205,16 +978,61 @@ theorem roundtrip {α β} (C : Codec α β) (ofNat : Nat → α) (toNat : α →
     let st' := packAll C ofNat bound zero st (pairs.map (·.1))
     unpackAll C toNat zero ⟨st'.buf, st.pos⟩ (pairs.map (·.2))
       = (pairs.map (fun p => received p.1 p.2), ⟨st'.buf, st'.pos⟩) := by
-  sorry
+  intro st'
+  obtain ⟨h1, h2, h3⟩ := packAll_spec C ofNat bound hb zero (pairs.map (·.1)) st hpos
+  have h1' : st'.pos ≤ st'.buf.length := h1
+  have h2' : st'.pos = st.pos + (wires C ofNat (pairs.map (·.1))).length := h2
+  have h3' : st'.buf.take st'.pos = st.buf.take st.pos ++ wires C ofNat (pairs.map (·.1)) := h3
+  have hdrop : st'.buf.drop st.pos = wires C ofNat (pairs.map (·.1)) ++ st'.buf.drop st'.pos :=
+    drop_of_take_eq h3' (by simp; omega)
+  rw [unpackAll_wires C ofNat toNat hnat zero st'.buf pairs hwf st.pos _ hdrop, ← h2']
 
 theorem received_full_stat {α β} (e n : Nat) (cells dcells : List α) (hc : cells.length = n * e)
     (hd : dcells.length = n * e) :
     received (β := β) (.stat (full e) n cells) (.stat (full e) n dcells) = .stat (full e) n cells := by
-  sorry
+  simp only [received, transferN_full]
+  rw [copyCells_all _ _ _ hc hd]
+
+theorem resizeCells_length {α} (e : Nat) (he : 0 < e) (dflt cells : List α) (m n : Nat) (hdf : dflt.length = e)
+    (hd : cells.length = m * e) : (resizeCells e dflt cells n).length = n * e := by
+  have hne : e ≠ 0 := by omega
+  have hdiv : cells.length / e = m := by rw [hd]; exact Nat.mul_div_cancel _ he
+  unfold resizeCells
+  simp only [hne, if_false, hdiv]
+  split
+  · next h => rw [List.length_take]; have := Nat.mul_le_mul_right e h; omega
+  · next h =>
+    have hfl : ((List.replicate (n - m) dflt).flatten).length = (n - m) * e := by
+      simp [List.length_flatten, hdf]
+    rw [List.length_append, List.length_take, hfl, hd, Nat.min_self, ← Nat.add_mul]
+    congr 1; omega
 
 theorem received_full_dyn {α β} (e n m : Nat) (he : 0 < e) (cells dflt dcells : List α) (hc : cells.length = n * e)
     (hdf : dflt.length = e) (hd : dcells.length = m * e) :
     received (β := β) (.dyn (full e) n cells) (.dyn (full e) dflt dcells) = .dyn (full e) dflt cells := by
-  sorry
+  simp only [received, transferN_full]
+  have hext : (full e).extent = e := rfl
+  rw [hext, copyCells_all _ _ _ hc (resizeCells_length e he dflt dcells m n hdf hd)]
+
+theorem full_covers (e j : Nat) : (full e).covers j = true ↔ j < e := by
+  simp [full, covers]
+
+/-- whole-element copies and transfers with a datatype of the same extent agree on every communicated cell -/
+theorem transferN_full_agree {α} (tm : TMap) (hwf : tm.wf) (hpos : 0 < tm.extent) (n : Nat) (src : List α) (s : Nat)
+    (dst : List α) (d i : Nat) (hc : tm.covers ((i - d) % tm.extent) = true) :
+    (transferN (full tm.extent) n src s dst d)[i]? = (transferN tm n src s dst d)[i]? := by
+  have hpos' : 0 < (full tm.extent).extent := hpos
+  rw [transferN_getElem? tm hwf hpos, transferN_getElem? (full tm.extent) (full_wf _) hpos']
+  have hfull : (full tm.extent).covers ((i - d) % (full tm.extent).extent) = true :=
+    (full_covers _ _).mpr (Nat.mod_lt _ hpos)
+  have he : (full tm.extent).extent = tm.extent := rfl
+  rw [he] at hfull
+  simp only [hc, hfull, he, and_true]
+
+theorem seq_copy_agrees {α} (tm : TMap) (hwf : tm.wf) (hpos : 0 < tm.extent) (src : List α) (io : Nat) (dst : List α)
+    (oo len i : Nat) (hc : tm.covers ((i - oo * tm.extent) % tm.extent) = true) :
+    (Seq.copyLoop tm.extent src io dst oo len)[i]? = (transferN tm len src (io * tm.extent) dst (oo * tm.extent))[i]? := by
+  rw [copyLoop_eq]
+  exact transferN_full_agree tm hwf hpos len src _ dst _ i hc
 
 end DV.C07.Proofs
